@@ -9,6 +9,7 @@ INVARIANT Total
 INVARIANT ErrLeftFirst
 INVARIANT DivZero
 INVARIANT Coercion
+INVARIANT WordIsText
 INVARIANT Trichotomy
 INVARIANT TypeOrder
 INVARIANT CaseBlind
